@@ -106,6 +106,9 @@ thread_local! {
     pub static QUIET_PANICS: std::cell::Cell<bool> = const { std::cell::Cell::new(false) };
 }
 
+/// Message and location of the most recent panic on an actor thread.
+pub static LAST_ACTOR_PANIC: std::sync::Mutex<Option<String>> = std::sync::Mutex::new(None);
+
 /// Install a panic hook that stays silent for threads that asked for it (expected panics of
 /// the code under test inside `catch`), and prints normally otherwise.
 pub fn install_panic_hook() {
@@ -116,6 +119,16 @@ pub fn install_panic_hook() {
             .name()
             .map(|n| n.contains("Mainline Dht actor"))
             .unwrap_or(false);
+        if is_actor {
+            let msg = info
+                .payload()
+                .downcast_ref::<String>()
+                .cloned()
+                .or_else(|| info.payload().downcast_ref::<&str>().map(|s| s.to_string()))
+                .unwrap_or_else(|| "panic".to_string());
+            let loc = info.location().map(|l| format!(" at {}:{}", l.file(), l.line())).unwrap_or_default();
+            *LAST_ACTOR_PANIC.lock().unwrap_or_else(|e| e.into_inner()) = Some(format!("{msg}{loc}"));
+        }
         if quiet || (is_actor && std::env::var_os("VERIF_VERBOSE").is_none()) {
             return;
         }
